@@ -112,7 +112,7 @@ func main() {
 	}
 	if sig != 0 {
 		syscall.Kill(os.Getpid(), syscall.Signal(sig))
-		time.Sleep(20 * time.Second)
+		time.Sleep(1 * time.Second) // the signal was ignored or blocked: exit normally
 	}
 	os.Exit(exit)
 }
